@@ -403,3 +403,25 @@ def _py_seq(items, pad):
         else:
             heads += e
     return heads + tails
+
+
+def widen(r, t):
+    """a type to which values of t are implicitly convertible with a DIFFERENT memory layout where possible:
+    larger Bytes/String/DynArray bounds (structs are nominal: left unchanged)"""
+    k = t[0]
+    if k in ("bytes", "string"):
+        return (k, t[1] + r.choice([1, 7, 32, 40]))
+    if k == "darr":
+        return ("darr", widen(r, t[1]), t[2] + r.choice([0, 1, 3]))
+    if k == "sarr":
+        return ("sarr", widen(r, t[1]), t[2])
+    return t
+
+
+def has_struct(t):
+    k = t[0]
+    if k == "tuple":
+        return True
+    if k in ("sarr", "darr"):
+        return has_struct(t[1])
+    return False
